@@ -46,6 +46,9 @@ package parameters
 //@   loop 1 step forall(k, 0, len(old(additional)), additional[k] == old(additional[k]))
 //@   loop 1 step imp(!old(ignoreFlags) && !$hasPrefix(params[$idx], "-") && old(previous) != "", previous == "" && len(additional) == len(old(additional)))
 //@   loop 1 step imp(!old(ignoreFlags) && !$hasPrefix(params[$idx], "-") && old(previous) == "", args.AllowAdditional && len(additional) == len(old(additional))+1)
+// S7 a value consumed by a pending typed flag is stored under that flag - or parsing fails; a conversion
+//    error is never swallowed
+//@   loop 1 step imp(!old(ignoreFlags) && old(previous) != "" && previous == "" && !(ignoreFlags && !old(ignoreFlags)), has(flags.flags, old(previous)))
 //@   loop 2 invariant flags != nil && flags.flags != nil && 0 <= i && i < len(params) && fresh(additional) && forallkey(k, flags.flags, flags.flags[k] != nil)
 
 // FlagValueT.Any: both implementations (flagValue, nullValue) are getters; each is verified to
